@@ -36,6 +36,10 @@ type violation struct {
 	Obs  string `json:"observation"`
 	What string `json:"what"`
 	Kind string `json:"kind"`
+	// a smaller case on which the oracle still reports the same kind of violation (first violation only)
+	MinCase  string `json:"minimized_case,omitempty"`
+	MinWhat  string `json:"minimized_what,omitempty"`
+	MinEvals int    `json:"minimization_evaluations,omitempty"`
 }
 
 type stats struct {
@@ -93,6 +97,7 @@ func main() {
 	out := flag.String("out", "", "output directory")
 	replay := flag.String("replay", "", "replay file (json with a cases list) instead of generating")
 	corpus := flag.String("corpus", "", "corpus directory of .case files replayed first")
+	shrink := flag.Bool("shrink", false, "minimise the first violation found (used on a replay of one failing case)")
 	flag.Parse()
 	p, ok := props[*prop]
 	if !ok {
@@ -187,6 +192,23 @@ func main() {
 	iw.Flush()
 	cf.Close()
 	inf.Close()
+	// shrink the first violation the oracle reported (bounded; the full case stays in the record)
+	for i := range st.Violations {
+		if !*shrink {
+			break
+		}
+		v := &st.Violations[i]
+		if strings.HasPrefix(v.What, "implementation panicked") {
+			continue
+		}
+		if t, err := ParseTok(v.Case); err == nil {
+			m, w, n := shrinkCase(p, t, v.What, 600, 20*time.Second)
+			if ms := m.String(); len(ms) < len(v.Case) {
+				v.MinCase, v.MinWhat, v.MinEvals = ms, w, n
+			}
+		}
+		break
+	}
 	st.WallS = time.Since(start).Seconds()
 	js, _ := json.MarshalIndent(st, "", " ")
 	os.WriteFile(filepath.Join(*out, "stats.json"), js, 0o644)
